@@ -302,4 +302,60 @@ theorem SignedData.decode_encode (keyOk : Bytes → Bool) {sd : SignedData} (hw 
   · rename_i h; exact absurd (hk h.1) (by simpa using h.2)
   · rfl
 
+/-! ### unconditional size bounds: the nested-length clauses of `SignedHeader.WF` / `Data.WF` /
+`SignedData.WF` follow from the sizes of the byte-string fields -/
+
+def Header.payload (h : Header) : Nat :=
+  h.lastHeaderHash.length + h.lastCommitHash.length + h.dataHash.length + h.consensusHash.length +
+  h.appHash.length + h.lastResultsHash.length + h.proposerAddress.length + h.validatorHash.length +
+  (utf8 h.chainId).length
+
+theorem Header.encode_length_le (h : Header) : h.encode.length ≤ 300 + h.payload := by
+  unfold Header.encode Header.fields Header.payload
+  simp only [encFields_append, List.length_append]
+  have a1 := encFields_single_length 1 h.version.encode
+  have av := Version.encode_length h.version
+  have a2 := encFields_optV_length 2 h.height
+  have a3 := encFields_optV_length 3 h.time
+  have a4 := encFields_optB_length 4 h.lastHeaderHash
+  have a5 := encFields_optB_length 5 h.lastCommitHash
+  have a6 := encFields_optB_length 6 h.dataHash
+  have a7 := encFields_optB_length 7 h.consensusHash
+  have a8 := encFields_optB_length 8 h.appHash
+  have a9 := encFields_optB_length 9 h.lastResultsHash
+  have a10 := encFields_optB_length 10 h.proposerAddress
+  have a11 := encFields_optB_length 11 h.validatorHash
+  have a12 := encFields_optB_length 12 (utf8 h.chainId)
+  omega
+
+theorem Metadata.encode_length_le (m : Metadata) :
+    m.encode.length ≤ 80 + (utf8 m.chainId).length + m.lastDataHash.length := by
+  unfold Metadata.encode Metadata.fields
+  simp only [encFields_append, List.length_append]
+  have a1 := encFields_optB_length 1 (utf8 m.chainId)
+  have a2 := encFields_optV_length 2 m.height
+  have a3 := encFields_optV_length 3 m.time
+  have a4 := encFields_optB_length 4 m.lastDataHash
+  omega
+
+theorem Signer.encode_length_le (s : Signer) : s.encode.length ≤ 40 + s.address.length + s.pubKey.length := by
+  unfold Signer.encode Signer.fields
+  split
+  · simp [encFields]
+  · simp only [encFields_append, List.length_append]
+    have a1 := encFields_optB_length 1 s.address
+    have a2 := encFields_optB_length 2 s.pubKey
+    omega
+
+/-- a signed header whose scalar fields are `uint64`s and whose byte strings together are shorter
+than `2^63` (they live in one Go process) is well formed -/
+theorem SignedHeader.wf_of_sizes {sh : SignedHeader} (hv : sh.header.version.WF)
+    (hh : sh.header.height < 2 ^ 64) (ht : sh.header.time < 2 ^ 64)
+    (hs : sh.header.payload + sh.signature.length + sh.signer.address.length + sh.signer.pubKey.length < 2 ^ 63) :
+    sh.WF := by
+  have a := Header.encode_length_le sh.header
+  have b := Signer.encode_length_le sh.signer
+  unfold Header.payload at hs a
+  refine ⟨⟨hv, hh, ht, ?_, ?_, ?_, ?_, ?_, ?_, ?_, ?_, ?_⟩, ?_, ?_, ⟨?_, ?_⟩, ?_⟩ <;> omega
+
 end Wire
